@@ -34,6 +34,10 @@ def run(ctx):
         scs += logix_rw.cross_section(rnd, 60 if thorough else 16, prefix="ex")
     except ImportError:
         pass
+    # the network takes every frame in several pieces (partial sends): what arrives is still one well-formed frame per message
+    for k, sc in enumerate(scs):
+        if k % 4 == 1:
+            sc["sendchunk"] = rnd.choice([1, 7, 24, 30, 100, 1460])
     results = se.run_all(ctx, scs, "c11")
     ctx.traces = len(results)
     nf = se.report(ctx, results, lambda r, clause, ev: {"family": r["sc"]["family"], "event": ev.get("k", "")})
